@@ -274,7 +274,8 @@ def observe(bam):
     with pysam.AlignmentFile(bam) as f:
         for r in f.fetch(until_eof=True):
             tags = {t: r.get_tag(t) for t in MOL_TAGS if r.has_tag(t)}
-            recs[(r.query_name, tagrun.mate_of(r), r.reference_start)] = {
+            # the contig is part of the key: the mates of an un-paired cross-contig pair may share name, mate label and position
+            recs[(r.query_name, tagrun.mate_of(r), '%s:%d' % (r.reference_name, r.reference_start))] = {
                 'dup': bool(r.is_duplicate), 'qcfail': bool(r.is_qcfail), 'tags': tags,
                 'mi': r.get_tag('mi') if r.has_tag('mi') else None}
     return recs
